@@ -143,8 +143,15 @@ def decorate(shapes, seed=0, feat=frozenset()):
         labelled = True
         if shape == "text":
             row["type"] = rnd.choice(TEXT_TYPES[:2])
+            if "params" in feat and row["type"] == "text" and rnd.random() < 0.3:
+                f.col("parameters")
+                row["parameters"] = rnd.choice(["rows=3", "rows=5"])
         elif shape == "typed":
             row["type"] = rnd.choice(TEXT_TYPES[2:])
+            if "params" in feat and row["type"] == "geopoint" and rnd.random() < 0.6:
+                # accuracy thresholds become attributes of the control; the separators are interchangeable
+                f.col("parameters")
+                row["parameters"] = rnd.choice(["capture-accuracy=10 warning-accuracy=20", "warning-accuracy=12.5", "capture-accuracy=7;warning-accuracy=9", "capture-accuracy=3, warning-accuracy=4"])
         elif shape == "calc":
             row["type"] = "calculate"
             f.col("calculation")
